@@ -13,6 +13,7 @@ import sys
 
 from harness import framework, gen, lean, terms
 from harness.datapath import ALL_CFGS, Session, cfg_name, reply_canon, reply_kind
+from harness.props import c03_overrides
 
 PRIM_TAGS = {"N", "b", "i", "f", "s", "y"}
 
@@ -287,6 +288,7 @@ def run(chk: framework.Check):
                 case, found_input=False)
     chk.extra["rule"] = ("random worlds (attrs/dataclass/TypedDict classes, enums) x types to depth 3 x conforming values x "
                          "{Converter,BaseConverter} x {dict,tuple}; non-trivial = non-leaf type; distinct by canonical text")
+    c03_overrides.run_overrides(chk, drv)
     drv.close()
 
 
@@ -307,6 +309,8 @@ def oracle(w, cfg, ty, x, ri):
 
 
 def replay(case):
+    if case.get("part") == "overrides":
+        return c03_overrides.replay_overrides(case)
     drv = lean.Driver()
     case = terms.case_from_json(case)
     S = Session(drv, case["world"])
